@@ -1,8 +1,61 @@
-(* C07 -- property theorems only: each is closed by [exact] of a lemma proved elsewhere. *)
+(* C07 -- property theorems only: each is closed by [exact] of a lemma proved elsewhere
+   (Refl/BoundedProofs.v, Refl/BoundedRefuted.v).  Model: Refl/Bounded.v over the shared server model Refl/Server.v;
+   the fuel-free meanings and the size measures are in Refl/BoundedSpec.v.  [MatchOps] (clause matching, query
+   filters: external code) is a parameter of every statement: the theorems hold for any matcher and any filter. *)
 From Coq Require Import List NArith ZArith.
-From Muscle Require Import Refl.Base Refl.Bounded Refl.BoundedProofs.
+From Muscle Require Import Refl.Base Refl.Matcher Refl.Session Refl.Server Refl.Bounded Refl.BoundedSpec
+  Refl.BoundedProofs Refl.BoundedRefuted.
+Import ListNotations.
 
-Theorem C07_remove_nth_out_of_range : forall (A : Type) (n : nat) (l : list A),
-  length l <= n -> remove_nth n l = l.
-Proof. exact remove_nth_out_of_range. Qed.
-Print Assumptions C07_remove_nth_out_of_range.
+(* JettisonOutgoingResults (repaired loop, RemoveData(name, j)): for every queue and every matcher it returns as soon as
+   the fuel exceeds the weight of the heaviest queued Message, and removes exactly what the matcher accepts. *)
+Theorem C07_jettison_results_fuel : forall (M : MatchOps) (om : option matcher) (fuel : nat) (q : list omsg),
+  qweight q < fuel -> jettison_results true om fuel q = Some (jq_spec om q).
+Proof. exact @jettison_results_spec. Qed.
+Print Assumptions C07_jettison_results_fuel.
+
+(* PushSubscriptionMessages' while-dirty loop runs at most twice *)
+Theorem C07_push_loop_fuel : forall (M : MatchOps) (fuel : nat) (sv : server),
+  2 <= fuel -> push_loop fuel sv = Some (push_all sv).
+Proof. exact @push_loop_spec. Qed.
+Print Assumptions C07_push_loop_fuel.
+
+(* handler_fuel: MessageReceivedFromGateway returns for EVERY command (any nesting of batches) in EVERY state, with
+   fuel linear in the heaviest outgoing Message a jettison pass meets: every loop instance iterates at most that often. *)
+Theorem C07_handler_fuel : forall (M : MatchOps) (fx : fixes) (c : bcmd) (fuel nest : nat) (b : bserver) (s : sid),
+  2 <= fuel -> hpeak fx nest b s c < fuel ->
+  bhandle fx true fuel nest b s c = Some (bhandle_spec fx nest b s c).
+Proof. exact @handler_fuel. Qed.
+Print Assumptions C07_handler_fuel.
+
+Theorem C07_handler_returns : forall (M : MatchOps) (fx : fixes) (c : bcmd) (nest : nat) (b : bserver) (s : sid),
+  exists fuel0, forall fuel, fuel0 <= fuel -> exists b', bhandle fx true fuel nest b s c = Some b'.
+Proof. exact @handler_returns. Qed.
+Print Assumptions C07_handler_returns.
+
+(* server_step_total: one turn of the event loop (a session arrives, leaves, stops/resumes reading, or one Message of any
+   modelled kind is dispatched and the subscription updates are pushed) returns in every state; so does every history. *)
+Theorem C07_server_step_total : forall (M : MatchOps) (fx : fixes) (fuel : nat) (b : bserver) (ev : bevent),
+  2 <= fuel -> speak fx b ev < fuel -> bstep fx true fuel b ev = Some (bstep_spec fx b ev).
+Proof. exact @server_step_total. Qed.
+Print Assumptions C07_server_step_total.
+
+Theorem C07_server_run_total : forall (M : MatchOps) (fx : fixes) (fuel : nat) (evs : list bevent) (b : bserver),
+  2 <= fuel -> rpeak fx evs b < fuel -> brun fx true fuel evs b = Some (brun_spec fx evs b).
+Proof. exact @server_run_total. Qed.
+Print Assumptions C07_server_run_total.
+
+(* finding F4: the loop as found (RemoveData(name, i), the queue index) does not return -- a reachable state and a
+   structurally valid Message for which the handler is out of fuel for every fuel.  Replayed on the real server. *)
+Theorem C07_jettison_refuted :
+  exists (ops : MatchOps) (evs : list bevent) (b : bserver) (s : sid) (c : bcmd),
+    (forall fuel, 2 <= fuel -> @brun ops all_fixed true fuel evs empty_bserver = Some b) /\
+    (forall fuel, @bstep ops all_fixed false fuel b (BCmd s c) = None).
+Proof. exact jettison_refuted. Qed.
+Print Assumptions C07_jettison_refuted.
+
+(* non-vacuity: the premises of the fuel theorems hold in a state with queued replies (weight 1), where the repaired
+   handler returns with fuel 2 and empties the non-reading client's queue *)
+Example C07_fuel_premises_satisfiable : forall fuel, 2 <= fuel ->
+  exists b', @bstep tiny_ops all_fixed true fuel w_state (BCmd 1%N w_cmd) = Some b' /\ @queue_of tiny_ops b' 1%N = [].
+Proof. exact w_step_returns. Qed.
